@@ -67,6 +67,8 @@ def judge(res):
     old, fresh = res["old"], res["fresh"]
     cold = res.get("cold")
     out = []
+    if not res.get("final_open") and old[0] == "ok":
+        return []          # nothing open at the end: nothing is published, a fresh server would not analyse anything
     if "timeout" in (old[0], fresh[0]) or (cold and cold[0] == "timeout"):
         return None
     # the fragment cache must not matter for a fresh server
@@ -120,14 +122,17 @@ def classify(d, a, b):
 
 # --------------------------------------------------------------------------------------- running
 
+CLOSE_HANDLED = [False]      # set from the translator (does backend.rs implement did_close?)
+
+
 def run_one(binary, hist, tag, probe_refs=True):
-    wd = os.path.join(C.WORK, "scratch", "c07_" + tag)
+    wd = os.path.join(C.WORK, "scratch", "c07_%s_%d" % (tag, os.getpid()))
     try:
-        res = R.run_case(binary, hist, wd, timeout=TIMEOUT, probe_refs=probe_refs)
+        res = R.run_case(binary, hist, wd, timeout=TIMEOUT, probe_refs=probe_refs, close_handled=CLOSE_HANDLED[0])
         v = judge(res)
         if v is None:
             # a timeout on a loaded machine: once more, alone
-            res = R.run_case(binary, hist, wd, timeout=TIMEOUT * 2, probe_refs=probe_refs)
+            res = R.run_case(binary, hist, wd, timeout=TIMEOUT * 2, probe_refs=probe_refs, close_handled=CLOSE_HANDLED[0])
             v = judge(res)
         return res, v
     finally:
@@ -217,6 +222,7 @@ def run(tier, seed, replay):
                        info["on_change_ok"] and info["background_ok"] and info["serve_post_after_task"] and info["on_remove_drops"],
                        json.dumps({k: info[k] for k in ("on_change_seq", "background_seq")}))
         translator_err = None
+        CLOSE_HANDLED[0] = bool(info["did_close_handled"])
     except T.TranslatorError as e:
         translator_err = str(e)
         res.obligation("translator dropped_tables", False, translator_err)
